@@ -131,9 +131,11 @@ def r_add_scan(model, rep, tier):
             same2 = ("cmp", ("==",), (idc(img), idc(cur)))
             diff = ("cmp", ("!=",), (("attr", cur, "checksums"), ("attr", img, "checksums")))
             diff2 = ("cmp", ("!=",), (("attr", img, "checksums"), ("attr", cur, "checksums")))
-            ng = [g for g in facts.non_gate_guards(e) if g[1]]      # negated earlier refusals are not conditions of the scan
-            ok = len(ng) == 1 and ng[0][1] and ng[0][0][0] == "boolop" and ng[0][0][1] == "and" and len(ng[0][0][2]) == 2 \
-                and bool(set(ng[0][0][2]) & {same, same2}) and bool(set(ng[0][0][2]) & {diff, diff2})
+            # the conditions inside the scan, as a set of atomic conditions (one test with 'and', nested ifs, or
+            # 'if not same: continue' + 'if different: raise' are the same thing)
+            base = tuple(cx.ex.loop_guards.get(e.loops[0][0], ()))
+            inner = [g for g in e.guards[len(base):]] if tuple(e.guards[:len(base)]) == base else list(facts.non_gate_guards(e))
+            ok = facts.guard_atoms(inner) == {facts.canon_guard((same, True)), facts.canon_guard((diff, True))}
             msg = "the refusal must be conditioned exactly on: same identity (identify_image) and different checksums"
         if ok:
             exc = e.value
@@ -147,7 +149,8 @@ def r_add_scan(model, rep, tier):
             msg = "uniqueness must be enforced exactly for header versions >= 1.1"
     rep.ob("R-ADD-SCAN", "Images.add:collision-scan", ok, site=cx.site(f.node), msg="" if ok else msg)
     lids = set(l[0] for e in rs for l in e.loops)
-    bad = [ev for ev in cx.events if ev.kind in ("break", "continue", "return") and set(l[0] for l in ev.loops) & lids]
+    # a 'continue' only filters (its negated condition is among the guards of the refusal, checked above); break/return end the scan
+    bad = [ev for ev in cx.events if ev.kind in ("break", "return") and set(l[0] for l in ev.loops) & lids]
     rep.ob("R-ADD-SCAN", "Images.add:scan-not-cut-short", not bad, site=cx.site(f.node),
            msg="" if not bad else "%s inside the collision scan (line %s)" % (bad[0].kind, bad[0].lineno))
     # insertion: one statement, after the scan, into the addressed cell
@@ -364,7 +367,10 @@ def check_c09(model, rep, tier):
     attrs, W, wcx = r_ident_table(model, rep)
     r_ident_both(model, rep, attrs, W, wcx)
     r_add_scan(model, rep, tier)
-    check_atomic(model, rep, "R-ADD-ATOMIC", model.own_method("images.Images", "add"), builder_refs(model))
+    # for uniqueness only the insertion of an *image* matters: a refusal after it would leave the colliding image filed; creating
+    # an empty (variant, arch) cell before a refusal is C12's business (failed call leaves the manifest unchanged), not C09's
+    check_atomic(model, rep, "R-ADD-ATOMIC", model.own_method("images.Images", "add"), builder_refs(model),
+                 construct="images.Images.add:no-refusal-after-insertion", ignore_mutators=("setdefault",))
     r_single_writer(model, rep, "images.Images", "images", {"add", "__delitem__", "__init__"})
     from .roundtrip import r_no_hidden_state
     r_no_hidden_state(model, rep, ["images.Images"])
